@@ -4,7 +4,7 @@ import N0Verif.Proofs.NXmlStr
 
 Only property statements live here; definitions of the specification side (`flatKids`,
 `elemAt`, `valueOf`, …) and helper lemmas are in `Proofs/NXml.lean`.  The model
-(`Model/NXml.lean`) follows `n0struct_xml.py` with fixes C18-a, C18-b, C18-c, C18-d applied; its input
+(`Model/NXml.lean`) follows `n0struct_xml.py` with fixes C18-a, C18-b, C18-c, C18-d, C18-e applied; its input
 is the element tree ElementTree reports (the XML parser is trusted).
 -/
 namespace N0.C18
@@ -287,6 +287,75 @@ theorem C18_findall_rendered (findFirst : Bool) (root : XVal) (e : List Tok) (hn
 /-- one step: the step parser returns the groups the step was rendered from -/
 theorem C18_parseStep_render (st : Step) (h : WfStep st) : parseStep (renderStepE st) = some st :=
   parseStep_render st h
+
+/-! ### a step is read whole (fix C18-e)
+
+Before the fix the step regex was applied with `re.match`, had no end anchor and its tag class was
+`[a-zA-Z0-9_]+`: `item-id`, `item-id[0]`, `item-id[text()=2]` were all read as the step `item`. -/
+
+/-- **C18 (only real nodes: the step is read whole).**  Whatever the step parser (which stands for
+`re.fullmatch` of the step regex) accepts, it has consumed: the text of the step is the tag
+followed by what the index / condition groups read — nothing between the tag and the first `[`,
+nothing left over — and a step read without index and condition *is* its tag. -/
+theorem C18_step_whole (step : Str) (st : Step) (h : parseStep step = some st) :
+    ∃ mid, step = st.tag ++ mid ∧ (mid = [] ∨ mid.head? = some '[') ∧
+      (st.idx = none → st.cond = none → mid = []) := parseStep_whole step st h
+
+/-- **C18 (only real nodes: a name selects by the whole name).**  For a name `t` — a word character
+followed by word characters, `.` and `-`, e.g. `item-id`, `a.b`, `é` — `findall([t])` returns, in
+document order, exactly the siblings whose tag **equals** `t` (each with its positional path). -/
+theorem C18_name_step (items : List Item) (t : Str) (hne : t ≠ [])
+    (hh : ∀ c, t.head? = some c → isWord c = true) (hw : ∀ c ∈ t, isNameChar c = true) :
+    findallL false (.nodes items) [t] =
+        .ok (some (selG ⟨t, none, none⟩ 0 (fun p v => [(p, v)]) [] [] items)) ∧
+      ∀ tag, tagTest ⟨t, none, none⟩ tag 0 = (tag == t) := by
+  have hwf : WfStep ⟨t, none, none⟩ := ⟨Or.inr (Or.inr ⟨hne, hh, hw⟩), trivial⟩
+  have hr : renderStepE ⟨t, none, none⟩ = t := by simp [renderStepE, renderIdx, renderCond]
+  have hns : isNameChar '*' = false := by decide
+  have h2 : t ≠ star2 := by
+    intro e; subst e
+    have := hw '*' (by simp [star2]); rw [hns] at this; cases this
+  have h1 : t ≠ star := by
+    intro e; subst e
+    have := hw '*' (by simp [star]); rw [hns] at this; cases this
+  have hp := parseStep_render _ hwf
+  have hd := renderStepE_ne_dotdot _ hwf
+  rw [hr] at hp hd
+  refine ⟨C18_conditions_exact_one items t ⟨t, none, none⟩ ⟨hp, h2, hd⟩, fun tag => ?_⟩
+  rw [C18_tagTest_plain _ h2]
+  have : ((t == star) = false) := by simpa using h1
+  simp [this]
+
+/-- `<r><item>1</item><item-id>2</item-id><item.x>3</item.x><item>4</item><é>5</é></r>` -/
+def exDocN : Elem :=
+  .mk (s "r") none [] [
+    .mk (s "item") (some (s "1")) [] [], .mk (s "item-id") (some (s "2")) [] [],
+    .mk (s "item.x") (some (s "3")) [] [], .mk (s "item") (some (s "4")) [] [],
+    .mk (s "é") (some (s "5")) [] []]
+
+example : parseStep (s "item-id") = some ⟨s "item-id", none, none⟩ := by decide +kernel
+example : parseStep (s "item-id[0][text()=2]") = some ⟨s "item-id", some (some 0), some (s "=", s "2")⟩ := by
+  decide +kernel
+/-- what the unfixed code truncated now does not parse (`ValueError`) -/
+example : parseStep (s "a[x]") = none ∧ parseStep (s "a[1]x") = none ∧ parseStep (s "a[1") = none ∧
+    parseStep (s "a[text()=]") = none ∧ parseStep (s ".") = none ∧ parseStep (s "-a") = none := by
+  decide +kernel
+example : findall false (parseNode exDocN) (s "item-id") = .ok (some [([s "item-id"], .text (some (s "2")))]) := by
+  decide +kernel
+example : findall false (parseNode exDocN) (s "item-id[0]") = .ok (some [([s "item-id"], .text (some (s "2")))]) := by
+  decide +kernel
+example : findall false (parseNode exDocN) (s "item-id[text()=2]") =
+    .ok (some [([s "item-id"], .text (some (s "2")))]) := by decide +kernel
+example : findall false (parseNode exDocN) (s "item") =
+    .ok (some [([s "item"], .text (some (s "1"))), ([s "item[1]"], .text (some (s "4")))]) := by decide +kernel
+example : findall false (parseNode exDocN) (s "é") = .ok (some [([s "é"], .text (some (s "5")))]) := by decide +kernel
+example : findall false (parseNode exDocN) (s "item.x") = .ok (some [([s "item.x"], .text (some (s "3")))]) := by
+  decide +kernel
+example : findall false (parseNode exDocN) (s "item-zz") = .ok (some []) := by decide +kernel
+example : contains (parseNode exDocN) (s "item-zz") = .ok false := by decide +kernel
+example : findall false (parseNode exDocN) (s "item-id[1]x") = .error .ValueError := by decide +kernel
+example : (s "item-id") ≠ [] ∧ (∀ c, (s "item-id").head? = some c → isWord c = true) ∧
+    (∀ c ∈ s "item-id", isNameChar c = true) ∧ (∀ c ∈ s "é", isNameChar c = true) := by decide +kernel
 
 /-- `**/a[1][text()!=z]/../*[*]` -/
 def exExpr : List Tok :=
